@@ -15,8 +15,9 @@ THEOREMS = ["c03_collect_errors_keeps_failures", "c03_interpretation_per_pair", 
             "c03_other_pairs_untouched", "c03_fouled_iff_documented",
             "c03_early_exit_never_changes_the_verdict", "c03_funnel_keeps_audit_verdict",
             "c03_funnel_keeps_cleanup_failure", "c03_funnel_keeps_component_errors",
-            "c03_funnel_no_spurious_foul"]
-REFUTED = ["c03_funnel_every_component_error_kept_refuted"]
+            "c03_funnel_no_spurious_foul", "c03_conduct_reads_each_component_once",
+            "c03_collector_cancelled_only_after_a_failure", "c03_failure_free_play_exits_by_the_verdict"]
+REFUTED = ["c03_funnel_every_component_error_kept_refuted", "c03_pinned_code_cancelled_the_collector_refuted"]
 
 HEADER = ("From Shk Require Import Base.Prelude Model.Verdict Corr.C03.\nFrom Coq Require Import String.\n"
           "Open Scope list_scope.\nOpen Scope string_scope.\n")
@@ -27,7 +28,7 @@ BITS = [(1, "audit-verdict-differs-from-documented-rule"), (2, "audit-verdict-di
 ASSUMPTIONS = [
     "the stream of reports fed to the collector model is the one the real audition emitted (the audition itself is C02's subject)",
     "error values are abstracted to lists of causes {cancellation, audit violation, real}; errors.Is/Unwrap on an errorCollection look at its last element (errors.go)",
-    "funnel theorems quantify over the seven orders in which conduct's select statements can see the four components finish and over arbitrary component error values; which error values the components actually produce is observed end-to-end, not proved",
+    "funnel theorems quantify over every choice conduct's select statements can make (an oracle, one element per select) and over arbitrary component error values; the structure of the four stages (Model/Verdict.v stage/stage3/conduct_run) is read off conductor.go by hand, cross-checked against a second hand-written mirror in the harness, and tied to the running code by the end-to-end plays (zero-duration plays make the audition end before the spotlight supervisor reports); which error values the components actually produce is observed end-to-end, not proved",
     "directory / upload failures (run.go) are outside the funnel model",
 ]
 
@@ -123,7 +124,22 @@ for _n, _v in E2E_MULTI.items():
     E2E[_n] = _v
 
 
+# Plays that end at once (no script at all): the components finish within
+# microseconds of each other, so the orders in which conduct sees them end vary
+# from run to run.  The verdict must not depend on that order.
+ZERO = {
+    "immediate-end-disappointed": ("audience\n  bob expects always: t < 0\nend\n", True),
+    "immediate-end-satisfied": ("audience\n  bob expects always: t >= 0\nend\n", False),
+    "immediate-end-required-disappointment-missing": ("audience\n  bob expects always: t >= 0\nend\ninterpretation\n  require bob disappointment\nend\n", True),
+    "immediate-end-disappointment-ignored": ("audience\n  bob expects always: t < 0\nend\ninterpretation\n  ignore bob disappointment\nend\n", False),
+    "immediate-end-foul-upon-satisfaction": ("audience\n  bob expects always: t >= 0\nend\ninterpretation\n  foul upon bob satisfaction\nend\n", True),
+}
+ZERO_REPEATS = {"quick": 12, "thorough": 150}
+
+
 def run_play(binpath, name, early, keepdir=None):
+    if name in ZERO:
+        return _run(binpath, name, early, ZERO[name][0], ZERO[name][1])
     sub, expected = E2E[name]
     if name in E2E_MULTI:
         d = dict(cleanup_r="true", cleanup_q="true", zact="ok")
@@ -183,6 +199,7 @@ def run(tier, seed):
 
     # ---- end-to-end plays: exit status and Foul flag per single cause, with and without -S
     jobs = [(n, e) for n in E2E for e in (False, True)]
+    jobs += [(n, e) for n in ZERO for e in (False, True) for _ in range(ZERO_REPEATS[tier])]
     with concurrent.futures.ThreadPoolExecutor(max_workers=12) as ex:
         plays = list(ex.map(lambda a: run_play(bins["shakespeare"], a[0], a[1]), jobs))
 
@@ -199,7 +216,7 @@ def run(tier, seed):
     vals = {k: vlib.parse_nat_list(v) for k, v in q.items()}
     res.coverage.update({
         "evaluations": summary["cases"] + len(plays), "distinct_nontrivial": summary["distinct_nontrivial"],
-        "rule": "in-process: generated audiences with 0-6 interpretation clauses in two sections (auditor-less shorthand, overriding sequences, members declared after a shorthand) x event histories, each run through the real audition and the real collectAuditionReport/processAuditResult/checkAuditViolations without and with -S; non-trivial = distinct case with >= 2 reports and >= 1 interpretation clause.  end-to-end: %d plays through the real binary, one per single cause (failing action, tolerated failure, cleanup first/second time, spotlight, auditor results under each interpretation mode, expression errors) x {-S}: exit status and result.js Foul" % len(plays),
+        "rule": "in-process: generated audiences with 0-6 interpretation clauses in two sections (auditor-less shorthand, overriding sequences, members declared after a shorthand) x event histories, each run through the real audition and the real collectAuditionReport/processAuditResult/checkAuditViolations without and with -S; non-trivial = distinct case with >= 2 reports and >= 1 interpretation clause.  end-to-end: %d plays through the real binary, one per single cause (failing action, tolerated failure, cleanup first/second time, spotlight, auditor results under each interpretation mode, expression errors) x {-S}: exit status and result.js Foul; among them %d runs of plays that end at once (no script), whose components end in varying orders" % (len(plays), len([p for p in plays if p["name"] in ZERO])),
         "samples": summary["samples"] + [{k: p[k] for k in ("name", "early", "exit", "foul_flag", "expected_nonzero")} for p in plays[:4]],
         "distribution": summary["stats"],
         "e2e_plays": [{k: p[k] for k in ("name", "early", "exit", "foul_flag", "expected_nonzero", "wall_s")} for p in plays],
@@ -208,8 +225,13 @@ def run(tier, seed):
     if rc != 0 or any(v is None for v in vals.values()):
         res.violation(None, "correspondence cases did not evaluate", {"kind": "cases-eval", "output": cout[-6000:]}, no_input=True)
         return res.finish()
+    reported = set()
     for p in plays:
+        key = (p["name"], p["early"])
+        if key in reported:
+            continue
         if (p["exit"] != 0) != p["expected_nonzero"] or p["exit"] not in (0, 1):
+            reported.add(key)
             res.violation("exit-status-" + p["name"] + ("-S" if p["early"] else ""),
                           "play with the single cause %r%s exits %s, documented: %s" %
                           (p["name"], " (-S)" if p["early"] else "", p["exit"], "non-zero" if p["expected_nonzero"] else "0"),
